@@ -362,6 +362,8 @@ class GeometricGrid(FixedGrid):
         return vec
 
 class SamplingMethod(DirectMethod):
+    only_initial_state_is_variable = False
+
     def __init__(self, N=50, M=1, intg='rk', intg_options=None, grid=UniformGrid(), **kwargs):
         """
         Parameters
@@ -969,6 +971,8 @@ class SamplingMethod(DirectMethod):
             # k=-1 first: a control or per-interval variable at tf is the one of the last interval,
             # which must keep the guess belonging to the start of that interval
             for k in [-1]+list(range(self.N)):
+                # With single shooting, states beyond t0 are no decision variables: nothing to initialise
+                if self.only_initial_state_is_variable and k!=0 and isinstance(var, MX) and ca.depends_on(var, stage.x): continue
                 target = self.eval_at_control(stage, var, k)
                 value_k = value
                 if target.numel()*(self.N)==value.numel() or target.numel()*(self.N+1)==value.numel():
